@@ -46,7 +46,19 @@ ASSUMPTIONS = [
     "variables before the instance is created); several user variable files define disjoint names",
     "options patched with setOptionForNode belong to 'the experiment that wrote it': the snapshot of the writer is "
     "taken immediately before store_unreplicated_flowir_to_disk()",
-    "packages that the repository rejects at creation are discarded (counted under label rejected:*)",
+    "only components that the (unreplicated) instance description can express are patched: a replica has no entry of "
+    "its own in it",
+    "the spelling of a reference (relative 'A:ref' / absolute 'stage0.A:ref') is not part of the configuration: the "
+    "`references` list is compared after making every entry absolute (after a loop iteration the live experiment "
+    "shows the package spelling again, a reloaded one the absolute spelling)",
+    "edges from the condition component of an *earlier* loop iteration to a consumer of a loop placeholder are not "
+    "compared: the live graph keeps them from before the iteration was added, a graph built from the stored "
+    "description only waits for the current condition; they are not data references (label "
+    "edges:stale-condition-edges-of-writer-not-restored counts the cases)",
+    "packages that the repository rejects at creation are discarded (counted under label rejected:*); typed options "
+    "given as %(var)s are generated on components only (blueprints / overrides with them are rejected at creation, "
+    "a C04 matter); ':copy' / ':link' references are declared but not used on the command line (the repository "
+    "only allows :ref / :output there); no ':copy' from a producer of the same stage",
 ]
 TIERS = {"quick": {"shards": 8, "budget": 150}, "thorough": {"shards": 16, "budget": 1500}}
 
@@ -342,9 +354,8 @@ def run_case(case, ctx: Ctx, loc: str):
             after_load = _read(path)
             l = snapshot(loaded)
             compare(w, l, patched, where, case, ctx)
-            if not op[1] and after_load != before:
-                raise Violation("load-without-update-rewrites-instance-file", "%s: file changed by a read-only load" % where)
-            compare_stored(before, after_load, where + ", file rewritten by the load", ctx)
+            compare_stored(before, after_load, where + (", file rewritten by the load" if op[1] else
+                                                        ", file after a load that must not update it"), ctx)
             loaded.experimentGraph.configuration.store_unreplicated_flowir_to_disk()
             compare_stored(before, _read(path), where + ", explicit store by the loaded experiment", ctx)
             exp = loaded
@@ -362,9 +373,8 @@ def check(case, ctx: Ctx):
         return
     feats = G.features(case)
     ctx.rec.label(*feats)
-    ops = [h[0] for h in case["history"]]
-    first_cycle = ops.index("cycle")
-    nontrivial = case["platform"] != "default" or bool(case["user_vars"]) or "iter" in ops[:len(ops)]
+    ops = [h[0] for h in case["history"]]         # a history always ends with a cycle
+    nontrivial = case["platform"] != "default" or bool(case["user_vars"]) or "iter" in ops
     if nontrivial:
         ctx.rec.nt(case, {"features": feats, "platform": case["platform"], "user_vars": case["user_vars"],
                           "history": case["history"],
